@@ -19,7 +19,7 @@ func verifExporter(ctx context.Context, first uint64, freq uint64, k int) (*Stor
 	ds := newVerifDS()
 	cs, err := CreateStore(ctx, ds, first, verifTableSeq(0))
 	sym.Assume(err == nil)
-	cs.powerTableFrequency = freq
+	verifSetFreq(cs, freq)
 	ref := &verifRef{first: first, tables: []gpbft.PowerEntries{verifTableSeq(0)}}
 	for j := 0; j < k; j++ {
 		c := verifCert(ref.next(), int64(10*j), 2, ref.tables[j], verifTableSeq(j+1))
@@ -50,8 +50,13 @@ func verifSplitBlocks(data []byte) [][]byte {
 // equals blake2b-256 of exactly the exported bytes.
 func VerifC17_RoundTrip() {
 	ctx := context.Background()
-	first := 1 + uint64(sym.Choice("first-minus-1", 2))
-	freq := 1 + uint64(sym.Choice("freq-minus-1", 2))
+	// either a small testing frequency, or the real default frequency (never
+	// overridden, so import and reopen run with it) with the history crossing a
+	// checkpoint multiple
+	first, freq := verifParams(2)
+	if freq == 3 || first == 0 {
+		sym.Assume(false)
+	}
 	k := 1 + sym.Choice("certs-minus-1", 2+sym.Tier())
 	cs, ref := verifExporter(ctx, first, freq, k)
 	end := sym.Choice("export-end", k) // export up to certificate index end
@@ -83,7 +88,7 @@ func VerifC17_RoundTrip() {
 	if err != nil {
 		return
 	}
-	cs2.powerTableFrequency = freq
+	verifSetFreq(cs2, freq)
 	sym.Cover("imported")
 	upTo := &verifRef{first: first, tables: ref.tables[:end+2], certs: ref.certs[:end+1]}
 	verifCompare(ctx, cs2, upTo, "imported")
